@@ -24,10 +24,11 @@ func c13BuildTypes(pos, bad string) []ggql.Type {
 	_ = q.AddField(&ggql.FieldDef{Base: ggql.Base{N: "a"}, Type: ref("Int")})
 	iface := &ggql.Interface{Base: ggql.Base{N: nm("interface", "ZzNode")}}
 	_ = iface.AddField(&ggql.FieldDef{Base: ggql.Base{N: nm("interface-field", "x")}, Type: ref("Int")})
-	o := &ggql.Object{Base: ggql.Base{N: nm("object", "ZzThing")}}
+	o := &ggql.Object{Base: ggql.Base{N: nm("object", "ZzThing")}, Interfaces: []ggql.Type{iface}}
 	f := &ggql.FieldDef{Base: ggql.Base{N: nm("object-field", "f")}, Type: ref("Int")}
 	_ = f.AddArg(&ggql.Arg{Base: ggql.Base{N: nm("field-argument", "arg")}, Type: ref("Int")})
 	_ = o.AddField(f)
+	_ = o.AddField(&ggql.FieldDef{Base: ggql.Base{N: nm("interface-field", "x")}, Type: ref("Int")})
 	e := &ggql.Enum{Base: ggql.Base{N: nm("enum", "ZzColor")}}
 	_ = e.AddValue(&ggql.EnumValue{Value: ggql.Symbol(nm("enum-value", "RED"))})
 	in := &ggql.Input{Base: ggql.Base{N: nm("input", "ZzIn")}}
